@@ -45,6 +45,8 @@ var stages = []tlcStage{
 	{"MC_Halt_fixed_t1", "MC_Halt_fixed_t1.cfg", "", 15 * time.Minute, false, "exhaustive"},
 	{"MC_Halt_fixed_t2", "MC_Halt_fixed_t2.cfg", "", 15 * time.Minute, false, "exhaustive"},
 	{"MC_Halt_ascoded_t", "MC_Halt_ascoded_t.cfg", "", 15 * time.Minute, false, "exhaustive"},
+	{"MC_Halt_drop", "MC_Halt_drop.cfg", "", 8 * time.Minute, false, "exhaustive"},
+	{"Mut_Halt_drop_ascoded", "Mut_Halt_drop_ascoded.cfg", "Exclusive", 3 * time.Minute, false, "relevance"},
 	{"Mut_Halt_grantpins", "Mut_Halt_grantpins.cfg", "Exclusive", 3 * time.Minute, false, "relevance"},
 	{"Mut_Halt_fwdfirst", "Mut_Halt_fwdfirst.cfg", "AckedIsOnPrimary", 3 * time.Minute, false, "relevance"},
 	{"Mut_Halt_waitpos", "Mut_Halt_waitpos.cfg", "StartsAtLockPos", 3 * time.Minute, false, "relevance"},
